@@ -56,12 +56,13 @@ func inAlphabet(c byte) bool {
 // excluded reports the combinations the property excludes (Go-version skew
 // of the port): %q on ints that are not code points, '#' with %x/%X on floats.
 func excludedFmt(dir []byte, a fmtArg) bool {
-	hasSharp, verb := false, byte(0)
-	for _, c := range dir {
+	hasSharp := false
+	vi := verbIndex(dir)
+	verb := dir[vi]
+	for _, c := range dir[:vi] {
 		if c == '#' {
 			hasSharp = true
 		}
-		verb = c
 	}
 	if _, ok := a.gov.(int64); ok && verb == 'q' {
 		v := a.gov.(int64)
@@ -73,6 +74,54 @@ func excludedFmt(dir []byte, a fmtArg) bool {
 		return true
 	}
 	return false
+}
+
+// verbIndex is the position of the directive's verb: the first byte that is
+// not a flag, digit, '.', '*' or argument-index bracket (the bytes after it are
+// literal text); the last byte when there is none.
+func verbIndex(dir []byte) int {
+	for k, c := range dir {
+		switch c {
+		case '#', '0', '+', '-', ' ', '.', '*', '[', ']', '1', '2', '3', '9':
+		default:
+			return k
+		}
+	}
+	return len(dir) - 1
+}
+
+func argKind(a fmtArg) string {
+	switch a.gov.(type) {
+	case int64:
+		return "int"
+	case float64:
+		return "float"
+	case string:
+		return "string"
+	case bool:
+		return "bool"
+	}
+	return "bytes"
+}
+
+// fmtMismatch reports a difference, classified so that known deviations can
+// be told apart from new ones (the part before " | " identifies the class).
+func fmtMismatch(want, got string, verb byte, emptyLen int, a fmtArg) {
+	if contains(want, "%!(EXTRA") {
+		vf.Stop() // rendering of surplus arguments is excluded by the property
+	}
+	k := argKind(a)
+	switch {
+	case verb == 'v':
+		vf.Fail("%v (default format) of a " + k + " differs from fmt's | arg " + a.name + " got " + got + " want " + want)
+	case verb == 'T':
+		vf.Fail("%T of a " + k + " differs from Go's type name | arg " + a.name + " got " + got + " want " + want)
+	case k == "bytes" && len(got) == emptyLen && (verb == 'b' || verb == 'c' || verb == 'o' || verb == 'O' || verb == 'U'):
+		vf.Fail("integer verb applied to a bytes value prints nothing | arg " + a.name + " got " + got + " want " + want)
+	case contains(want, "%!"):
+		vf.Fail("bad-verb / missing-argument text for a " + k + " differs from fmt's | arg " + a.name + " got " + got + " want " + want)
+	}
+	vf.Fail("format of a " + k + " differs from fmt.Sprintf | arg " + a.name + " got " + got + " want " + want)
 }
 
 // C17_Directive: "%" followed by 1..3 bytes of the directive alphabet, one
@@ -118,7 +167,10 @@ func C17_Directive() {
 	vf.RealFmt(true)
 	want := fmt.Sprintf(format, govs...)
 	vf.RealFmt(false)
-	vf.Assert(got == want, "format(\"%...\", "+a.name+") equals fmt.Sprintf: got "+got+" want "+want)
+	if got != want {
+		vi := verbIndex(dir)
+		fmtMismatch(want, got, dir[vi], 2+n-vi-1, a)
+	}
 	vf.Reach("directive")
 }
 
@@ -179,6 +231,12 @@ func C17_Indexed() {
 	if kind == 0 && contains(f, "%q") {
 		vf.Stop()
 	}
-	vf.Assert(got == want, "format equals fmt.Sprintf for `"+f+"`: got "+got+" want "+want)
+	if got != want {
+		kinds := []string{"int", "string", "float"}
+		if contains(want, "%!") {
+			vf.Fail("bad-verb / missing-argument text differs from fmt's for " + kinds[kind] + " arguments | `" + f + "` got " + got + " want " + want)
+		}
+		vf.Fail("format differs from fmt.Sprintf | `" + f + "` got " + got + " want " + want)
+	}
 	vf.Reach("indexed")
 }
